@@ -48,7 +48,16 @@ fn replay_stack<T: PartialEq>(stack: usize, script: &[DiffOp], old: &[T], new: &
 }
 
 pub fn check_script<T: PartialEq>(script: &[DiffOp], old: &[T], new: &[T]) -> Result<u64, String> {
-    let (n, m) = (old.len(), new.len());
+    check_script_ranges(script, old, 0..old.len(), new, 0..new.len())
+}
+
+pub fn check_script_ranges<T: PartialEq>(
+    script: &[DiffOp],
+    old: &[T],
+    or: std::ops::Range<usize>,
+    new: &[T],
+    nr: std::ops::Range<usize>,
+) -> Result<u64, String> {
     let mut del = 0;
     let mut ins = 0;
     for op in script {
@@ -62,7 +71,7 @@ pub fn check_script<T: PartialEq>(script: &[DiffOp], old: &[T], new: &[T]) -> Re
     for stack in 0..3 {
         let out = replay_stack(stack, script, old, new)?;
         let exact = stack == 0;
-        let st = validate_ops(&out, old, 0..n, new, 0..m, exact).map_err(|e| {
+        let st = validate_ops(&out, old, or.clone(), new, nr.clone(), exact).map_err(|e| {
             format!("{}: output is not a valid script: {} [output: {:?}]", STACKS[stack], e, out)
         })?;
         if st.deleted != del || st.inserted != ins {
@@ -103,6 +112,25 @@ impl<'a> Walk<'a> {
             match check_script(&self.script, self.old, self.new) {
                 Ok(f) => self.fp.add(f),
                 Err(e) => self.err = Some((self.script.clone(), e)),
+            }
+            // the same script for sub-ranges: indices shifted by (3,5) inside padded arrays
+            if self.err.is_none() && self.old.len() + self.new.len() <= 8 {
+                let (po, pn) = (3usize, 5usize);
+                let fo = crate::spaces::embed(self.old, po, 2, self.new);
+                let fnw = crate::spaces::embed(self.new, pn, 2, self.old);
+                let shifted: Vec<DiffOp> = self
+                    .script
+                    .iter()
+                    .map(|op| match *op {
+                        DiffOp::Equal { old_index, new_index, len } => DiffOp::Equal { old_index: old_index + po, new_index: new_index + pn, len },
+                        DiffOp::Delete { old_index, old_len, new_index } => DiffOp::Delete { old_index: old_index + po, old_len, new_index: new_index + pn },
+                        DiffOp::Insert { old_index, new_index, new_len } => DiffOp::Insert { old_index: old_index + po, new_index: new_index + pn, new_len },
+                        DiffOp::Replace { old_index, old_len, new_index, new_len } => DiffOp::Replace { old_index: old_index + po, old_len, new_index: new_index + pn, new_len },
+                    })
+                    .collect();
+                if let Err(e) = check_script_ranges(&shifted, &fo, po..po + self.old.len(), &fnw, pn..pn + self.new.len()) {
+                    self.err = Some((self.script.clone(), format!("same script shifted to sub-ranges old {:?} new {:?} of old={:?} new={:?}: {}", po..po + self.old.len(), pn..pn + self.new.len(), fo, fnw, e)));
+                }
             }
             return;
         }
